@@ -248,8 +248,8 @@ Proof.
     destruct (is_pig g id0 (reg_token g (se_tok e) (se_loc e)) x) eqn:P; [|auto].
     destruct (is_pig_spec _ _ _ _ P) as (dx & Fx & Dx & Sx & Bx). rewrite Fx.
     destruct (Hall id dx) as [r Hr]; [rewrite pig_of_lookup, Lx, P; exact Fx|]. rewrite Hr.
-    right; left. exists x, dx, r. repeat split; auto.
-    apply stamp_Some in Hr as [Hr _]. exact Hr.
+    right; left. exists x, dx, (keep_same (c_chks c !! id) r). repeat split; auto.
+    rewrite (proj1 (keep_same_core _ _)). apply stamp_Some in Hr as [Hr _]. exact Hr.
   - (* delsvc_ok *) rewrite dereg_svc_chks. destruct (c_svcs c !! id0) eqn:Ls; [|auto].
     destruct (c_chks c !! id) as [r|] eqn:Lr; [|auto].
     destruct (decide (ck_sid r = id0)) as [E|E]; [|auto].
@@ -257,8 +257,8 @@ Proof.
   - (* chk_ok *) apply cat_register_Some in H5 as (_ & _ & Hc & Hall). rewrite Hc, reg_chks_lookup.
     destruct (decide (id0 = id)) as [->|Hne].
     + rewrite lookup_singleton. destruct (Hall id d) as [r Hr]; [apply lookup_singleton|]. rewrite Hr.
-      right; left. exists e, d, r. repeat split; auto.
-      apply stamp_Some in Hr as [Hr _]. exact Hr.
+      right; left. exists e, d, (keep_same (c_chks c !! id) r). repeat split; auto.
+      rewrite (proj1 (keep_same_core _ _)). apply stamp_Some in Hr as [Hr _]. exact Hr.
     + rewrite lookup_singleton_ne by exact Hne. auto.
   - (* delchk_ok *) destruct (decide (id0 = id)) as [->|Hne].
     + right; right. rewrite !lookup_delete. split; [reflexivity|]. left. eauto.
@@ -303,7 +303,7 @@ Proof.
     destruct (is_pig_spec _ _ _ _ P) as (dx & Fx & _). exists dx. split; [exact Fx|]. left.
     apply cat_register_Some in H5 as (_ & _ & Hc & Hall). rewrite Hc, reg_chks_lookup, pig_of_lookup, L, P, Fx.
     destruct (Hall id dx) as [r Hr]; [rewrite pig_of_lookup, L, P; exact Fx|]. rewrite Hr.
-    exists r. split; [reflexivity|]. apply stamp_Some in Hr as [Hr _]. exact Hr.
+    eexists. split; [reflexivity|]. fold (chk_core (keep_same (c_chks c !! id) r)). rewrite (proj1 (keep_same_core _ _)). apply stamp_Some in Hr as [Hr _]. exact Hr.
   - (* svc_refused *) rewrite mark_pig_lookup, L in L'. injection L' as <-.
     destruct (is_pig g id0 (reg_token g (se_tok e0) (se_loc e0)) e) eqn:P; [|congruence].
     destruct (is_pig_spec _ _ _ _ P) as (dx & Fx & _). exists dx. split; [exact Fx|]. right.
@@ -314,7 +314,7 @@ Proof.
     + exists d. split; [congruence|]. left.
       apply cat_register_Some in H5 as (_ & _ & Hc & Hall). rewrite Hc, reg_chks_lookup, lookup_singleton.
       destruct (Hall id d) as [r Hr]; [apply lookup_singleton|]. rewrite Hr.
-      exists r. split; [reflexivity|]. apply stamp_Some in Hr as [Hr _]. exact Hr.
+      eexists. split; [reflexivity|]. fold (chk_core (keep_same (c_chks c !! id) r)). rewrite (proj1 (keep_same_core _ _)). apply stamp_Some in Hr as [Hr _]. exact Hr.
     + rewrite lookup_insert_ne in L' by exact Hne. congruence.
   - (* chk_fail *) destruct (decide (id0 = id)) as [->|Hne].
     + rewrite lookup_insert in L'. injection L' as <-. cbn in S'. congruence.
@@ -369,7 +369,8 @@ Proof.
   - intros id r L. rewrite Hc, reg_chks_lookup in L. rewrite Hs.
     destruct (chks !! id) as [d|] eqn:Ld.
     + destruct (Hall id d Ld) as [r' Hr']. rewrite Hr' in L. injection L as <-.
-      pose proof (stamp_sid _ _ _ Hr') as E. apply stamp_Some in Hr' as [_ Hr']. rewrite E. exact Hr'.
+      pose proof (stamp_sid _ _ _ Hr') as E. apply stamp_Some in Hr' as [_ Hr'].
+      rewrite (proj2 (keep_same_core _ _)), E. exact Hr'.
     + destruct (W1 id r L) as [?|?]; [auto|right; apply reg_svcs_mono; assumption].
   - rewrite Hs, reg_svcs_lookup. destruct sv as [[id d]|]; [|exact W2].
     destruct (decide (id = 0%N)) as [E|E]; [exfalso; exact (Hsv id d eq_refl E)|exact W2].
